@@ -71,15 +71,16 @@ class C17(Prop):
         "error proved unreachable); its epoch state (W_last_max, epoch_start, origin_point, d_min, W_tcp, K, ack_cnt) is read from the real object after "
         "every event and compared: exactly where the code copies values, W_tcp within 1e-9, cnt within 1e-5 relative "
         "(max_cnt = cwnd/(W_tcp - cwnd) is ill-conditioned in binary64: relative error about 3*cwnd^2*2^-52)",
-        "props/tcp_common.py:translate_cc (Python ast, fail-closed) regenerates coq/Gen/Extracted_cc.v from the CongestionControl / TCPReno method bodies "
+        "props/tcp_common.py:translate_cc / translate_cubic (Python ast, fail-closed) regenerate coq/Gen/Extracted_cc.v from the CongestionControl / TCPReno / TCPCubic method bodies "
         "of the tree under test before every build; the C17_gen_* theorems bridge them to the hand-written model",
         "the Timer is taken as specified by C19 (fires its callback once at creation+timeout unless stopped; restart from its own callback re-arms); "
         "the monitor checks expiry instants against the armed deadlines",
     ]
     assumptions = ["mss > 0, flow.size a multiple of the MSS (or None), no arrival_dist/size_dist, flow.start_time None, finish_time infinite",
                    "RTT samples are non-negative (ack.time <= now); initial rtt_estimate > 0"]
-    partial = ["the second tie (translated method bodies, Gen/Extracted_cc.v) covers CongestionControl and TCPReno; the TCPCubic methods are tied by the "
-               "correspondence and the monitor only"]
+    partial = ["the translated-definition tie covers the CongestionControl / TCPReno / TCPCubic method bodies; the estimator lines and the dupack "
+               "bookkeeping inside TCPPacketGenerator.put() are tied by the correspondence and the monitor only",
+               "binary64 rounding: theorems are over Q; CUBIC's cnt is compared within 1e-5 (ill-conditioned max_cnt), W_tcp within 1e-9"]
 
     # ---- generation -------------------------------------------------------------------------
     def gen_case(self, rng, tier):
